@@ -1314,7 +1314,8 @@ class Symex:
                 kw = dict(kw)
                 kw["key"] = lambda v, k=k: self.call_value(k, [v], {}, node)
             conv = [self.iterate(a, node) if isinstance(a, (T, Obj)) and name in
-                    ("list", "tuple", "enumerate", "zip", "set", "sorted", "reversed", "sum", "min", "max") else a for a in args]
+                    ("list", "tuple", "enumerate", "zip", "set", "sorted", "reversed", "sum", "min", "max")
+                    and not (name in ("min", "max") and len(args) > 1) else a for a in args]
             if name == "zip":
                 lens = [len(c) for c, a in zip(conv, args) if not isinstance(a, (T, Obj))]
                 if lens:
